@@ -123,6 +123,7 @@ LineCheck(i, tainted) ==
         ELSE IF ~WellFormed(post) THEN "WellFormed"
         ELSE IF Want("C02") /\ ~CountersConsistent(post) THEN "C02:CountersConsistent"
         ELSE IF Want("C02") /\ (qp.genus # GenusDef(post) \/ qp.needs_gc # NeedsGC(post)) THEN "C02:GenusOrNeedsGC"
+        ELSE IF Want("C02") /\ ~post.deferred /\ NeedsGC(post) THEN "C02:PendingDeletionsInImmediateMode"
         ELSE IF Want("C02") /\ kern /\ IsDelete(c) /\ ~relH THEN "C02:DeleteRel"
         ELSE IF Want("C04") /\ kern /\ IsGC(pre, c) /\ ~relH THEN "C04:GCRel"
         ELSE IF Want("C04") /\ kern /\ c.op = "status_gc" /\ ~StatusGCRel(pre, c, post, g, ln.rl) THEN "C04:StatusGCRel"
